@@ -41,7 +41,8 @@ func mkMsgs(specs []recSpec, sec int64, ms int, seq uint32) []*auparse.AuditMess
 }
 
 var coSyscalls = map[string]int{"open": 2, "execve": 59, "connect": 42, "accept": 43, "bind": 49, "unlink": 87, "rename": 82,
-	"chmod": 90, "mount": 165, "recvfrom": 45, "sendto": 44, "openat": 257, "kill": 62, "setuid": 105, "ptrace": 101, "nosuch": 999}
+	"chmod": 90, "mount": 165, "recvfrom": 45, "sendto": 44, "openat": 257, "kill": 62, "setuid": 105, "ptrace": 101, "nosuch": 999,
+	"mkdir": 83, "mkdirat": 258, "renameat": 264, "renameat2": 316, "symlink": 88, "link": 86, "rmdir": 84, "creat": 85, "chown": 92, "truncate": 76}
 
 func coWord(r *rand.Rand) string {
 	const cs = "abcdefghijklmnopqrstuvwxyz0123456789_./-"
@@ -116,9 +117,10 @@ func randomGroup(r *rand.Rand) ([]recSpec, string) {
 		return specs, "single"
 	}
 	// a SYSCALL group
-	names := []string{"open", "execve", "connect", "accept", "bind", "unlink", "rename", "chmod", "mount", "recvfrom", "sendto", "openat", "kill", "nosuch"}
+	names := []string{"open", "execve", "connect", "accept", "bind", "unlink", "rename", "chmod", "mount", "recvfrom", "sendto", "openat", "kill", "nosuch",
+		"mkdir", "mkdirat", "renameat", "renameat2", "symlink", "link", "rmdir", "creat", "chown", "truncate"}
 	name := names[r.Intn(len(names))]
-	npaths := r.Intn(4)
+	npaths := r.Intn(6) // around and beyond the path index the normalisation of the syscall names (0, 1 or 2)
 	var rest []recSpec
 	if r.Intn(2) == 0 {
 		rest = append(rest, recSpec{1307, `cwd="/` + coWord(r) + `"` + extras(r, r.Intn(3))})
@@ -166,6 +168,14 @@ func randomGroup(r *rand.Rand) ([]recSpec, string) {
 			break
 		}
 		fallthrough
+	case 1: // any order: the SYSCALL record anywhere, PATH/EXECVE/SOCKADDR records ahead of it
+		at := r.Intn(len(rest) + 1)
+		specs = append(specs, rest[:at]...)
+		specs = append(specs, sys)
+		specs = append(specs, rest[at:]...)
+		if at > 0 {
+			kind = "any-order"
+		}
 	default:
 		specs = append([]recSpec{sys}, rest...)
 	}
